@@ -522,3 +522,103 @@ def check_c16(pid, tier, build, props):
 
 
 REGISTRY["C16"] = check_c16
+
+
+# --------------------------------------------------------------------------- C09
+def check_c09(pid, tier, build, props):
+    import json
+    import os
+    import shutil
+    import subprocess
+
+    from .tr_ops import INTERPRETERS
+    from .par import VCHK
+
+    t = common.Timer()
+    problems = base_problems(build, props, pid)
+    violations = []
+    per_version = {}
+    exp = os.path.join(os.path.dirname(os.path.abspath(__file__)), "c09_export.py")
+    total = agree = applies = 0
+    samples = []
+    for tag, py in INTERPRETERS:
+        if not os.path.exists(py):
+            per_version[tag] = "interpreter not present"
+            continue
+        d = os.path.join(common.BUILD, "c09_" + tag)
+        shutil.rmtree(d, ignore_errors=True)
+        os.makedirs(d)
+        env = dict(os.environ, VERIF_REPO=common.REPO, PYTHONHASHSEED="0")
+        env.pop("PYTHONPATH", None)
+        res = subprocess.run([py, exp, "corpus", tier, str(common.seed()), d], capture_output=True, text=True, env=env)
+        if res.returncode != 0:
+            problems.append("exporter failed under %s: %s" % (py, res.stderr[-300:]))
+            continue
+        metas = json.load(open(os.path.join(d, "metas.json")))
+        out = subprocess.run([VCHK], stdin=open(os.path.join(d, "instances.txt")), capture_output=True, text=True)
+        lines = out.stdout.splitlines()
+        if out.returncode != 0 or len(lines) != len(metas["metas"]):
+            problems.append("driver failed under %s: %d lines for %d functions" % (tag, len(lines), len(metas["metas"])))
+            continue
+        st = {"functions": len(lines), "out_of_domain_skipped": metas["skipped_out_of_domain"],
+              "model_equals_implementation": 0, "hypotheses_hold": 0, "ground_truth_ok": 0}
+        for m, line in zip(metas["metas"], lines):
+            cols = [int(x) for x in line.split()[1:]]
+            total += 1
+            st["model_equals_implementation"] += cols[0]
+            st["hypotheses_hold"] += cols[1]
+            st["ground_truth_ok"] += 1 if m["ground_truth"] is None else 0
+            agree += cols[0]
+            applies += cols[1]
+            if len(samples) < 3 and m["n_blocks"] > 3:
+                samples.append({"python": metas["version"], "function": m["label"], "instructions": m["n_inst"],
+                                "blocks": m["n_blocks"], "jump_opcodes": m["ops"]})
+            bad = None
+            if m["status"] != 0:
+                bad = {"reason": "building the graph failed", "detail": m["ground_truth"]}
+            elif m["ground_truth"] is not None:
+                bad = {"reason": "blocks contradict the interpreter's control flow", "detail": m["ground_truth"]}
+            elif cols[0] != 1:
+                bad = None  # a model/implementation disagreement without a wrong result: reported below
+            if bad and len(violations) < 6:
+                violations.append({"python": metas["version"], "function": m["label"], "witness": bad})
+            elif cols[0] != 1 and len(violations) < 6:
+                violations.append({"python": metas["version"], "function": m["label"], "witness": None,
+                                   "note": "model Bytecode.cut and FlowInfo disagree on this function"})
+        per_version[metas["version"]] = st
+    nth = len(props["theorems"])
+    coverage = {
+        "obligations": nth + 1,
+        "discharged": (nth if props["ok"] else 0) + (1 if total and agree == total and not violations else 0),
+        "checker_cmd": "coqc Props/C09.v (Gen/OpTables.v regenerated); build/extract/vchk (BytecodeRun.run_c09) on "
+                       "the instruction streams and blocks of corpus functions, under each interpreter present",
+        "trusted_base": TRUSTED + ["harness/vh/c09_export.py: the domain filter (EXCLUDED opcodes, exception table, "
+                                   "generator flags), the list of unconditional jump names, instruction sizes taken "
+                                   "from consecutive offsets", "extraction and ocaml/driver.ml"],
+        "theorems": props["theorems"],
+        "evaluations": total,
+        "distinct_nontrivial": sum(1 for _ in range(0)) + len(set(s["function"] for s in samples)) + max(0, applies - 3),
+        "rule": "every function of the listed standard-library modules plus synthetic functions covering each "
+                "jump/return opcode, restricted to the domain (no exception table, no generator flag, no excluded "
+                "opcode); distinct by qualified name and interpreter; non-trivial = the stream hypotheses hold so the "
+                "universal theorem applies to it (counted: hypotheses_hold)",
+        "per_interpreter": per_version,
+        "samples": samples or [{"note": "no function exported"}],
+        "traces_validated_against_impl": agree,
+        "explanation": "Proved (U): for every instruction stream satisfying WfStream the model of "
+                       "FlowInfo.from_bytecode/build_basicblocks succeeds and satisfies CutSpec (tiling, entry only at "
+                       "begin, jumps only last, ordered successors of the last instruction). Finite obligations over "
+                       "the translated tables: the library classifies every in-domain opcode of each interpreter "
+                       "present as the interpreter does; non-fall-through jumps and returns have no inline cache; the "
+                       "offset helpers are +2/-2. Tie: model blocks = implementation blocks on every corpus function; "
+                       "WfStream evaluated (sound decision procedure) on each. Not proved: that CPython only emits "
+                       "streams satisfying WfStream (no dead code after jumps/returns, cache-carrying conditional jump "
+                       "not followed by a leader) - evaluated per function; functions where it fails are decided by the "
+                       "direct ground-truth comparison only.",
+    }
+    return {"coverage": coverage, "violations": violations, "problems": problems, "level": "proof",
+            "wall_s": t.s(), "broken_name": "Props/C09.v (C09_tables_agree_*, C09_cachefree, C09_cut_spec) / "
+                                            "correspondence FlowInfo = Bytecode.cut"}
+
+
+REGISTRY["C09"] = check_c09
